@@ -35,7 +35,13 @@ two precipitate phases on Al-Mg-Si, GeneralSurrogate on Fe-Cr-Ni whose two phase
 Every getter that takes a phase / precPhase argument is exercised with the argument left out AND with every admissible explicit
 value (Al-Mg-Si: both precipitate phases; Fe-Cr-Ni: both phases; one-phase families: the first value by name); the Al-Mg-Si
 and Fe-Cr-Ni cases train only the first, only the second, or both values, and the mech key 'phase' (default / explicit_first /
-explicit_other) says which form failed:
+explicit_other) says which form failed.  Training SUBSETS: every case draws which quantities are trained, per phase where the
+API is per phase - e.g. interfacial composition (curvature) only, interfacial composition + diffusivity, driving force only,
+diffusivity only, and on the two-precipitate systems (binary Ni-Al with FCC_L12 and BCC_B2 from the Ni-Cr-Al test database,
+Al-Mg-Si) driving force for one phase and interfacial composition / curvature for the other.  All three clauses are asserted
+for every subset: what is not trained (per phase and quantity) passes through bit for bit, what is trained reproduces its
+training data, and the surrogate rebuilt from its file equals the original at the training points AND at random points between
+them (where a silent fall-back to the thermodynamics shows):
   c20.untrained_passthrough  a getter whose quantity has not been trained (nothing trained; or only the driving force / only
                           another phase trained) returns bit for bit what the thermodynamics object returns for the SAME
                           quantity.  Surrogate and reference use two freshly built backends that receive the identical call
@@ -99,7 +105,8 @@ RULE = ('precipitation configurations from the shared generator {binary Al-Zr, t
         'recording history {unchanged, on->off->solve, on->off->save, off->on->solve, (diffusion) removed before save}; '
         'diffusion configurations {single phase, homogenization x 5 rules} x {Ni-Cr, Ni-Cr-Al, Fe-Cr-Ni} x recording on/off x 1-3 calls, 8-24 nodes; '
         'surrogate cases {binary Al-Zr, multicomponent Ni-Al-Cr, two-precipitate Al-Mg-Si, two-phase Fe-Cr-Ni} x {linear, log} x {broadcast grid, '
-        'paired points} x kernel x grid sizes (<=40 points) x trained phases {first, second, both} x phase argument {left out, every explicit value}. '
+        'paired points} x kernel x grid sizes (<=40 points) x training subset (which quantities for which phase; plus binary Ni-Al with two precipitates) '
+        'x phase argument {left out, every explicit value}. '
         'Non-trivial sub-cases (each with its own key): a save point at which some phase has precipitates (density > 0 and a non-zero '
         'distribution) / at which the profile differs from the initial one and >= 3 steps were taken; a surrogate quantity with >= 4 stored '
         'training points whose outputs are not constant, or an untrained getter group that returned finite values')
